@@ -204,8 +204,10 @@ class CHKUploadHelper(Referenceable, upload.CHKUploader):  # type: ignore # warn
 
         # let our fetcher pull ciphertext from the reader.
         self._fetcher.add_reader(reader)
-        # and also hashes
-        self._reader.add_reader(reader)
+        # and also hashes (unless we finished while this caller was on its
+        # way: it just gets the results below)
+        if self._reader is not None:
+            self._reader.add_reader(reader)
 
         # and inform the client when the upload has finished
         return self._finished_observers.when_fired()
@@ -243,7 +245,7 @@ class CHKUploadHelper(Referenceable, upload.CHKUploader):  # type: ignore # warn
         os.unlink(self._encoding_file)
         self._finished_observers.fire(hur)
         self._helper.upload_finished(self._storage_index, v.size)
-        del self._reader
+        self._reader = None
 
     def _failed(self, f):
         self.log(format="CHKUploadHelper(%(si)s) failed",
@@ -252,7 +254,7 @@ class CHKUploadHelper(Referenceable, upload.CHKUploader):  # type: ignore # warn
                  level=log.UNUSUAL)
         self._finished_observers.fire(f)
         self._helper.upload_finished(self._storage_index, 0)
-        del self._reader
+        self._reader = None
 
 class AskUntilSuccessMixin:
     # create me with a _reader array
